@@ -1,5 +1,5 @@
 (* Proofs about Model/LuaJson.v (C16): the value conversion around a script call. *)
-From RV Require Import Base.Util Model.LuaJson.
+From RV Require Import Base.Util Model.LuaJson Corr.LuaJson.
 
 (* induction over json values with the nested lists *)
 Section JsonInd.
@@ -35,8 +35,6 @@ Section Traversals.
 End Traversals.
 Lemma encode_table arr hash : encode (LTab arr hash) = finish (enc_arr encode arr 1 ++ enc_hash encode hash).
 Proof. reflexivity. Qed.
-
-Definition non_nil (x : lval) : bool := match x with LNil => false | _ => true end.
 
 Lemma decode_nil v : non_nil (decode v) = negb (is_null v).
 Proof. destruct v; reflexivity. Qed.
@@ -195,3 +193,43 @@ Proof. vm_compute. reflexivity. Qed.
 (* the encoder never fails on what decode produces: every input value comes back as some JSON *)
 Lemma decode_always_encodes v : exists j, encode (decode v) = Some j.
 Proof. eexists. apply roundtrip. Qed.
+
+(* ---------- encoding a table loses no entry: whenever Encode succeeds, the array / object it writes has exactly as many
+   elements / members as the table has live (non-nil) entries -- for ANY table, not only decoded ones ---------- *)
+
+Lemma count_cons_any {A} (f : A -> bool) x l : count f (x :: l) = (if f x then 1 else 0) + count f l.
+Proof. unfold count. cbn [filter]. destruct (f x); cbn [List.length]; lia. Qed.
+Lemma enc_arr_length enc l : forall i, zlen (enc_arr enc l i) = count non_nil l.
+Proof. induction l as [|x t IH]; intros i; [reflexivity|]. cbn [enc_arr]. rewrite count_cons_any.
+  destruct x; cbn [non_nil]; rewrite <- (IH (i + 1)); unfold zlen; cbn [List.length]; lia. Qed.
+Lemma enc_hash_length enc l : zlen (enc_hash enc l) = count (fun kv => non_nil (snd kv)) l.
+Proof. induction l as [|[k x] t IH]; [reflexivity|]. cbn [enc_hash]. rewrite count_cons_any. cbn [snd].
+  destruct x; cbn [non_nil]; rewrite <- IH; unfold zlen; cbn [List.length]; lia. Qed.
+
+Lemma finish_width es j : finish es = Some j -> jwidth j = zlen es.
+Proof.
+  unfold finish. destruct es as [|[k o] t]; [intros H; inversion H; reflexivity|].
+  destruct k as [s|z|b]; [| |discriminate].
+  - assert (G : forall l acc j, (fix go (l : list (lkey * option json)) (acc : list (string * json)) : option json :=
+       match l with [] => Some (JObj (rev acc)) | (KStr k, Some j) :: t => go t ((k, j) :: acc) | _ => None end) l acc = Some j ->
+       jwidth j = zlen l + zlen acc).
+    { induction l as [|[k' o'] l IH]; intros acc j0 H.
+      - inversion H. cbn [jwidth]. unfold zlen. rewrite rev_length. cbn. lia.
+      - destruct k'; try discriminate. destruct o'; try discriminate. apply IH in H. rewrite H. unfold zlen. cbn [List.length]. lia. }
+    intros H. destruct o as [j0|]; [|discriminate]. apply G in H. rewrite H. unfold zlen. cbn. lia.
+  - assert (G : forall l e acc j, (fix go (expected : Z) (l : list (lkey * option json)) (acc : list json) : option json :=
+       match l with [] => Some (JArr (rev acc)) | (KNum k, Some j) :: t => if k =? expected then go (expected + 1) t (j :: acc) else None | _ => None end) e l acc = Some j ->
+       jwidth j = zlen l + zlen acc).
+    { induction l as [|[k' o'] l IH]; intros e acc j0 H.
+      - inversion H. cbn [jwidth]. unfold zlen. rewrite rev_length. cbn. lia.
+      - destruct k'; try discriminate. destruct o'; try discriminate. destruct (z0 =? e); [|discriminate].
+        apply IH in H. rewrite H. unfold zlen. cbn [List.length]. lia. }
+    intros H. destruct o as [j0|]; [|discriminate]. destruct (z =? 1); [|discriminate]. apply G in H. rewrite H. unfold zlen. cbn. lia.
+Qed.
+
+Theorem encode_loses_no_entry arr hash j : encode (LTab arr hash) = Some j -> jwidth j = live (LTab arr hash).
+Proof.
+  rewrite encode_table. intros H. apply finish_width in H. rewrite H. unfold zlen. rewrite app_length.
+  pose proof (enc_arr_length encode arr 1) as Ha. pose proof (enc_hash_length encode hash) as Hh. unfold zlen in Ha, Hh.
+  cbn [live]. lia.
+Qed.
